@@ -114,7 +114,7 @@ Lemma in_tr_models c step g k ms :
   In c (tr_models step g k ms) ->
   c_step c = step /\ c_group c = g /\ k <= c_pos c /\
   exists m, nth_error ms (c_pos c - k) = Some m /\ enabled m = true /\
-            c_name c = name m /\ c_args c = args m.
+            c_name c = name m /\ c_args c = recv step m.
 Proof.
   revert k. induction ms as [|m ms IH]; intro k; simpl; [tauto|].
   intro H. apply in_app_or in H. destruct H as [H|H].
@@ -143,7 +143,7 @@ Lemma in_tr_readouts c order p n :
   In c (tr_readouts order p n) ->
   c_step c < n /\ In (c_group c) order /\
   exists ms m, get p (c_group c) = Some ms /\ nth_error ms (c_pos c) = Some m /\
-               enabled m = true /\ c_name c = name m /\ c_args c = args m.
+               enabled m = true /\ c_name c = name m /\ c_args c = recv (c_step c) m.
 Proof.
   unfold tr_readouts. rewrite in_flat_map. intros (s & Hs & H).
   apply in_seq in Hs. unfold tr_groups in H. rewrite in_flat_map in H. destruct H as (g & Hg & H).
